@@ -656,3 +656,34 @@ def _refactor_patches():
 for _d in _refactor_patches():
     for _p in CORPUS:
         CORPUS[_p].append(E(f"refactoring patch {_d.stem}", ("", "@patch", str(_d))))
+
+
+# ---------------------------------------------------------------------------
+# the seeded changes (/verif/seeded/<id>/patch.diff, written by sub-agents that saw only the property text and confirmed by a demo
+# against the real code): each is a breaking variant for every property whose check reported it when the seeds were last re-run
+# (tools/recheck_seeds.py records that in meta.json).  A patch that no longer applies to the current tree is skipped.
+# ---------------------------------------------------------------------------
+def _seeded_changes():
+    import json as _json
+    from pathlib import Path as _P
+    root = _P(__file__).resolve().parents[2] / "seeded"
+    out = []
+    if not root.is_dir():
+        return out
+    for d in sorted(root.iterdir()):
+        mp, pd = d / "meta.json", d / "patch.diff"
+        if not (mp.exists() and pd.exists()):
+            continue
+        try:
+            fired = _json.load(open(mp)).get("confirmation", {}).get("checks_fired", {})
+        except ValueError:
+            continue
+        for prop, v in fired.items():
+            if v.get("exit") == 1:
+                out.append((prop, d.name, str(pd)))
+    return out
+
+
+for _p, _name, _patch in _seeded_changes():
+    if _p in CORPUS:
+        CORPUS[_p].append(B(f"seeded change {_name}", None, ("", "@patch", _patch)))
